@@ -184,6 +184,8 @@ def st_tls_case(draw: st.DrawFn, tier: str) -> dict:
                 st.lists(st.one_of(st.just("ok"), st.just("ok"), st.just("want_read"), st.tuples(st.just("partial"), st.sampled_from([1, 3, 50, 16000])).map(list)), max_size=8),
             )
         ),
+        # a second task of the same client parked in recv() while the sends run (request/response clients with a reader task)
+        "reader": draw(st.booleans()),
     }
 
 
@@ -239,6 +241,21 @@ async def _tls_session(case: dict) -> dict:
         if case.get("ssl_script"):
             proxy = _ScriptedSSLObject(tls._ssl_object, [list(x) if isinstance(x, (list, tuple)) else x for x in case["ssl_script"]], nudge)
             tls._ssl_object = proxy
+        got_in = bytearray()
+        reader_task = None
+        if case.get("reader"):
+
+            async def reader_loop() -> None:
+                while True:
+                    data = await tls.recv(65536)
+                    if not data:
+                        return
+                    got_in.extend(data)
+
+            reader_task = asyncio.create_task(reader_loop())
+            for _ in range(3):
+                await asyncio.sleep(0)
+        _tls_progress.update(reader=bool(reader_task))
         idx = 0
         for sizes in case["sends"]:
             chunks = []
@@ -258,7 +275,12 @@ async def _tls_session(case: dict) -> dict:
             await asyncio.sleep(0)
         # what the peer sent to unblock injected want-reads is ordinary application data for the SUT's reader
         want_in = b"".join(nudges)
-        got_in = bytearray()
+        if reader_task is not None:
+            _tls_progress.update(waiting_reader=True, want_in=want_in, got_in=got_in)
+            await wire.wait_until(lambda: len(got_in) >= len(want_in) or reader_task.done())
+            _tls_progress.update(waiting_reader=False)
+            reader_task.cancel()
+            await asyncio.gather(reader_task, return_exceptions=True)
         while len(got_in) < len(want_in):
             data = await tls.recv(65536)
             if not data:
@@ -285,6 +307,12 @@ def run_tls_case(case: dict) -> Outcome:
     try:
         r = run_virtual(_tls_session, case)
     except Deadlock as exc:
+        if _tls_progress.get("waiting_reader"):
+            raise Violation(
+                "inbound-withheld",
+                f"the reader task never gets records that reached the transport while a write was waiting for the engine: "
+                f"{bytes(_tls_progress['got_in'])!r} of {_tls_progress['want_in']!r}",
+            ) from exc
         if _tls_progress.get("sends_done"):
             got = bytes(_tls_progress["peer"].plain_in)
             exp = _tls_progress["expected"]
@@ -301,11 +329,15 @@ def run_tls_case(case: dict) -> Outcome:
         raise Violation("inbound-mismatch", f"records read while a write was waiting for the engine were lost: {r['nudges_in']!r} != {r['nudges_want']!r}")
     flat = [n for s in case["sends"] for n in s]
     classes = ["single" if case["single"] else "iterable"] + sorted({f"engine-{x}" for x in r["injected"]})
+    if case.get("reader"):
+        classes.append("concurrent-reader")
+        if "want_read" in r["injected"]:
+            classes.append("want-read-with-concurrent-reader")
     if 0 in flat:
         classes.append("empty-chunk")
     if any(len(s) == 0 for s in case["sends"]):
         classes.append("empty-iterable")
-    nt = ((0 in flat or any(len(s) == 0 for s in case["sends"])) and len(flat) >= 2) or (bool(r["injected"]) and len(flat) >= 2)
+    nt = ((0 in flat or any(len(s) == 0 for s in case["sends"])) and len(flat) >= 2) or (bool(r["injected"]) and len(flat) >= 2) or ("want_read" in r["injected"] and bool(case.get("reader")))
     return Outcome(nontrivial=nt, classes=tuple(classes))
 
 
@@ -317,8 +349,9 @@ CHECK = Check(
         "through StreamEndpoint.send_packet) x per-call fault script of the socket (partial sizes, EAGAIN, EINTR, errno failure) x "
         "kernel capacity + peer-drain timeline x timeout {0, finite, inf} x retry_interval x sendmsg present/hidden x SC_IOV_MAX "
         "{real,0,-1,1,2,3}, single-threaded under a fake selector and virtual clock; async-tls layer: send_all / "
-        "send_all_from_iterable sequences incl. empty chunks against the stdlib-ssl peer. non-trivial = (a partial write or "
-        "would-block and >= 2 chunks) or an empty chunk present; distinct = sha1(case)"
+        "send_all_from_iterable sequences incl. empty chunks against the stdlib-ssl peer, engine script (partial writes, want-read) and "
+        "optionally a second task parked in recv(). non-trivial = (a partial write or would-block and >= 2 chunks) or an empty "
+        "chunk present or an injected want-read with the concurrent reader; distinct = sha1(case)"
     ),
     layers=[
         Layer("socket", st_socket_case, run_socket_case, {"quick": 2500, "thorough": 12000}),
